@@ -5,6 +5,7 @@ import (
 	"encoding/binary"
 	"encoding/json"
 	"fmt"
+	"golang.org/x/text/encoding/charmap"
 	"os"
 	"path/filepath"
 	"sort"
@@ -26,7 +27,7 @@ func init() {
 		Rule: "bounded-exhaustive enumeration with a reference folder-transfer client on the real transfer path: all directory trees with up to 4 (thorough 5) entries, depth <= 2, names {a, 'b c', .dot, sub, .hid} / {x, .y, in}, file sizes {0,1,5}; " +
 			"download: every per-file action vector over {send, resume@0, resume@1, resume@size, skip}; upload into an empty target, a target holding a complete copy of one file, a target holding a partial copy; upload then download; " +
 			"folder upload cut at every byte of the client's stream (also inside a resumed item) and retried; folders holding files with stored information / resource forks; distinct = distinct (tree shape, action vector class, observation)",
-		Assumptions: []string{"which entries below a hidden folder count as items is not settled by the property: for such trees only 'announced count = headers sent' is checked", "roots have visible names; no symlinks"},
+		Assumptions:    []string{"which entries below a hidden folder count as items is not settled by the property: for such trees only 'announced count = headers sent' is checked", "roots have visible names; no symlinks"},
 		Run:            runC10,
 		Replay:         replayC10,
 		MinOutcomes:    10,
@@ -198,6 +199,11 @@ func c10Download(w *explore.Worker, c c10Case, wd *world.World, u *world.Client,
 			return items, announced, false
 		}
 		x.take(it.Len)
+		for i := range it.Path { // names travel in Mac Roman; the tree model holds them as they are on disk
+			if d, err := charmap.Macintosh.NewDecoder().String(it.Path[i]); err == nil {
+				it.Path[i] = d
+			}
+		}
 		g := c10Got{Item: it, Prefix: -1}
 		if it.IsFolder {
 			x.send([]byte{0, 3})
@@ -385,7 +391,11 @@ func c10Upload(c c10Case, wd *world.World, u *world.Client, cut int, fail func(s
 		if x.dead {
 			return true
 		}
-		x.send(ref.ItemHeader(e.Dir, strings.Split(e.Path, "/")...))
+		var segs []string
+		for _, seg := range strings.Split(e.Path, "/") {
+			segs = append(segs, string(macRoman(seg)))
+		}
+		x.send(ref.ItemHeader(e.Dir, segs...))
 		if x.dead {
 			return true
 		}
@@ -629,6 +639,18 @@ func c10Cases(thorough bool) []c10Case {
 			if i == nf {
 				break
 			}
+		}
+		for target := 0; target < 3; target++ {
+			cs = append(cs, c10Case{Mode: "upload", Tree: t, Target: target})
+		}
+		cs = append(cs, c10Case{Mode: "roundtrip", Tree: t})
+	}
+	// names that are not ASCII: Mac Roman on the wire, UTF-8 on disk, in both directions
+	for _, t := range [][]c10Entry{
+		{{Path: "é.txt", Size: 5}, {Path: "dé", Dir: true}, {Path: "dé/ü", Size: 1}},
+	} {
+		for a0 := 0; a0 < 5; a0++ {
+			cs = append(cs, c10Case{Mode: "download", Tree: t, Actions: []int{a0, 0}})
 		}
 		for target := 0; target < 3; target++ {
 			cs = append(cs, c10Case{Mode: "upload", Tree: t, Target: target})
